@@ -3,6 +3,7 @@ Any schedule of API calls: the real representation and the expanded trie give th
 -/
 import NeoModel.Model.Mpt.LazyOps
 import NeoModel.Proofs.MptLazyBatch
+import NeoModel.Proofs.MptLazySeek
 namespace NeoModel.Mpt
 
 variable {H : Bytes → Bytes}
@@ -36,7 +37,21 @@ theorem lstep_estep (h32 : ∀ b, (H b).length = 32) {F : Nat} (s : LState) (t :
     | some v =>
       obtain ⟨l', hg', hrep⟩ := h1 v hl
       simp [hg', hrep]; exact hst
+  | proof p =>
+    obtain ⟨h1, h2⟩ := lgetProof_rep (H := H) F s.root t p hr (good_need _ hg)
+    simp only [lstep, estep]
+    cases hl : getProof H t p with
+    | none => simp [h2 hl, hr]; exact hst
+    | some ps =>
+      obtain ⟨l', hg', hrep⟩ := h1 ps hl
+      simp [hg', hrep]; exact hst
   | root => simp [lstep, estep, lrootHash_rep hr, hr]; exact hst
+  | seek pre st back =>
+    have hd : dirty = false := by simpa [allowed] using hok
+    have hro := lreopen_rep hr (hst hd)
+    simp only [lstep, estep]
+    rw [lseek_rep F _ t pre st back hro hg.2.2]
+    exact ⟨rfl, hr, fun _ => hst hd⟩
   | flush =>
     have hs := stored_lflush h32 hr hg.1 hg.2.1
     simp only [lstep, estep]
